@@ -118,6 +118,7 @@ def mutants_for(lines, a, b, limit):
 
 # survivors that are equivalent by inspection: (regex on the mutant description, reason)
 EQUIVALENT = [
+    (re.compile(r'relational .*`if registers_to_push_count > 0 \{` -> `if registers_to_push_count >= 0'), 'for a count of 0 the block only adds the no-op `ADD/SUB SP, SP, #0`'),
     (re.compile(r'relational .*rest_length = if '), 'at the boundary (length == capacity) both branches give 0'),
     (re.compile(r'.*`if free_fields > 0 \{`'), 'guards a COMMENT only'),
     (re.compile(r'relational .*`assert!\('), 'weakened capacity assert!: under the precondition of the contract (the bound the call sites guarantee) the assertion is unreachable either way'),
